@@ -170,6 +170,8 @@ def draw_string(rng, pools, L):
         s = rng.choice(["foo ", "bar ", "t ", "on ", "de "]) + s
     if rng.random() < 0.05 and P["skip"]:
         s = s + " " + rng.choice(P["skip"])
+    if rng.random() < 0.08:
+        s = s + " " + rng.choice(TZ_SUFFIXES)
     return s
 
 
@@ -180,6 +182,8 @@ def draw_text(rng, pools, L):
     joiner = "" if (pools["langs"].get(L) or {}).get("nws") and rng.random() < 0.5 else rng.choice([" ", ". ", ", ", " and "])
     return joiner.join(parts) + rng.choice(["", ".", ""])
 
+
+TZ_SUFFIXES = ["UTC", "GMT", "UTC+3", "GMT+2", "UTC-5", "EST", "+0530", "CET", "PST", "UTC+03:00"]
 
 FAILING = [
     {"op": "parse", "s": "12 March 2015", "kw": {"settings": {"FOO": 1}}},
@@ -304,6 +308,13 @@ def gen_history(rng, pools, tier):
                 slots[nslot] = {"languages": [L2], "settings": copy.deepcopy(var)}
                 ops.append({"op": "new_parser", "slot": nslot, "kw": slots[nslot], "clock_us": clock()})
             ops.append({"op": "get_date_data", "slot": 1, "ctor": slots[1], "s": refdep, "clock_us": clock()})
+        elif tmpl < 0.09:
+            # T9 strings that carry a time zone, in succession (plain UTC/GMT, then UTC+n, then others)
+            base_s = rng.choice(["3 March 2020 12:00", "12/03/2015 10:00", "2 hours ago", "March 3 2020 5pm"])
+            for z in rng.sample(TZ_SUFFIXES, rng.choice([2, 3, 4])):
+                ops.append({"op": rng.choice(["parse", "parse", "search"]), "s": base_s + " " + z, "text": "on " + base_s + " " + z, "kw": {"languages": ["en"]}, "clock_us": clock()})
+            for o in ops:
+                o.pop("text" if o["op"] == "parse" else "s", None)
         elif tmpl < 0.105:
             # T7 parse() with a (pure, deterministic) language-detection callback: what it detected for one
             # string must not stick for the next
